@@ -64,6 +64,8 @@ type Task struct {
 
 	Ops          int // operations started
 	OpsPostFault int // operations started after the fault (cancel) fired
+	ReleasedByDone bool // a select of this task completed with the cancellation channel (chan struct{} case)
+	OpsAtRelease   int  // operations started when that happened
 	parkedAtFault bool
 	HostPostFault int // host side effects after the fault fired
 	Panic        any // non-sentinel panic that ended the task
@@ -195,6 +197,7 @@ func InstallHooks() {
 		interp.VerifGo = hookGo
 		interp.VerifLock = hookLock
 		interp.VerifSelect = hookSelect
+		interp.VerifSelected = hookSelected
 		// one-time initialisations of the time package (sync.Once) must not
 		// happen first inside the scheduler, whose synchronisation is hidden.
 		time.NewTimer(time.Hour).Stop()
@@ -398,6 +401,30 @@ func hookSelect(site int, cases []reflect.SelectCase) (int, reflect.Value, bool,
 		return def, reflect.Value{}, false, true
 	}
 	return 0, reflect.Value{}, false, false
+}
+
+var doneChanType = reflect.TypeOf((chan struct{})(nil))
+
+// hookSelected records that a task was released from a channel operation by the
+// cancellation channel: the programs of the checks that use this probe have no
+// channel of struct{} of their own.
+//
+//go:norace
+func hookSelected(site int, cases []reflect.SelectCase, chosen int) {
+	r := cur.Load()
+	if r == nil || chosen < 0 || chosen >= len(cases) {
+		return
+	}
+	c := cases[chosen]
+	if c.Dir != reflect.SelectRecv || !c.Chan.IsValid() || c.Chan.Type() != doneChanType {
+		return
+	}
+	raceDisable()
+	if t := r.lookup(getg()); t != nil && !t.ReleasedByDone {
+		t.ReleasedByDone = true
+		t.OpsAtRelease = t.Ops
+	}
+	raceEnable()
 }
 
 // CoopLock acquires a script-visible mutex cooperatively (DESIGN 3.5).
